@@ -270,7 +270,10 @@ def check_decode_adaptors(ctx, F):
         ok = False
         if len(r) == 1 and r[0].ret[0] == 'agg' and isinstance(r[0].ret[1], tuple) and r[0].ret[1][1] == adt:
             vals = dict(zip(r[0].ret[3], r[0].ret[2]))
-            dec_ok = vals.get('decoder') in (('ref', (1, 'deref'), True), ('arg', 1))
+            dv = vals.get('decoder')
+            if isinstance(dv, tuple) and dv and dv[0] == 'ref' and len(dv[1]) == 2 and dv[1][1] == 'deref' and dv[1][0] != 1:
+                dv = r[0].store.get((dv[1][0],), dv)        # a reborrow of a local that was bound to `self` (`let decoder = self;`)
+            dec_ok = dv in (('ref', (1, 'deref'), True), ('arg', 1))
             if name == 'decode_iid_symbols':
                 ok = dec_ok and vals.get('model') == ('arg', 3) and vals.get('amt') == ('arg', 2)
             else:
@@ -528,9 +531,8 @@ def check_state_writers(ctx, F):
         else:
             ctx.unresolved('R7', 'assigns `state` (inventory of writers)', dp, 'new writer of AnsCoder::state outside {clear, encode_symbol, decode_symbol, seek}: not understood by this check', key=key, loc=rules.loc(b))
     ctx.floor('R7', 'floor: state writers', ANS, len(writers), 4, 'only %d functions assign `state` (4 expected)' % len(writers), key='R7/floor/state-writers')
-    cl = [b for b in F.bodies if b.promoted is None and b.name == 'clone' and b.self_adt == ANS and b.impl_trait == 'core::clone::Clone']
-    key = 'R7/clone-derived/' + ANS
-    (ctx.ok if cl and all(b.derived for b in cl) else ctx.bad)('R7', 'Clone is the derived field-wise copy', ANS, '#[derive(Clone)]' if cl else 'no Clone impl', key=key)
+    import props.C08 as c08
+    c08.check_clone_complete(ctx, F, ANS)
 
 
 def check_decode_iterator_overrides(ctx, F):
